@@ -137,7 +137,7 @@ def _solve(fe, order, variant=None):
         e = build(fe, order, variant)
         return C.solve_model(e.m, 'eco')
     except Exception as ex:  # noqa
-        return ('raise', C.exc_class(ex) + ':' + str(ex)[:60])
+        return ('raise', C.exc_class(ex))
 
 
 def reference(fe):
@@ -160,7 +160,9 @@ def run(case):
     last = max(dv)
     before = sorted(set(ev for ev in order[:last] if ev in ('C1', 'C2', 'C3', 'O', 'ND', 'Y')))
     noise = '+'.join(ev for ev in order if ev in NOISE) or '-'
-    feat = 'dvar_after:%s|noise:%s' % ('+'.join(before) or '-', noise)
+    rv = [i for i, ev in enumerate(order) if ev in ('Z', 'NZ')]
+    rbefore = sorted(set(ev for ev in order[:max(rv)] if ev in ('C1', 'C2', 'C3', 'O', 'ND', 'Y', 'F')))
+    feat = 'dvar_after:%s|rvar_after:%s|noise:%s' % ('+'.join(before) or '-', '+'.join(rbefore) or '-', noise)
     detail = 'order %s -> %s ; canonical %s -> %s' % (' '.join(order), C.fmt(got), ' '.join(CANON[fe]), C.fmt(exp))
     if got[0] == 'raise' or exp[0] == 'raise':
         if got[0] == 'raise' and exp[0] == 'raise':
@@ -168,7 +170,7 @@ def run(case):
             return res
         side = 'history' if got[0] == 'raise' else 'fresh'
         who = got if got[0] == 'raise' else exp
-        res.update(status='violation', sig='order|%s|%s_raises:%s|%s' % (fe, side, who[1].split(':')[0], feat),
+        res.update(status='violation', sig='order|%s|%s_raises:%s|%s' % (fe, side, who[1], feat),
                    detail=detail)
         return res
     c = C.compare_status(got, exp, C.TOL_CONE)
